@@ -10,6 +10,7 @@ import ast
 
 from . import c14_sem as G
 from .c14_geo import r1_inverse_pair, r2_local_frames, r3_rbgeom
+from .c14_fit import r5_rbcoords
 from .core import AnchorError
 from .e1_srcmodel import dotted, parent
 from .e2_eval import is_unknown
@@ -127,6 +128,7 @@ RULES = [
     ("C14-R2", r2_local_frames, 14),
     ("C14-R3", r3_rbgeom, 7),
     ("C14-R4", r4_rbe3_order, 4),
+    ("C14-R5", r5_rbcoords, 7),
 ]
 LEVEL = "other"
 EXPLANATION = ("Static, decided on values: the anchored functions are *executed* by a small interpreter (verifier/c14_np.py: Python statements, closures, "
